@@ -142,6 +142,8 @@ SITES = [
     ("regAssocAlloc", "lib/lpc/array.c", r"allocate_empty_array \(2 \* num_match \+ 1\)", 2, None),
     ("restoreArrayAlloc", "lib/lpc/object.c", r"size = restore_size \(str, 0\)\) < 0\)" + W + r"return ROB_ARRAY_ERROR;" + W + r"v = allocate_array \(size\);", 1, None),
     ("restoreMappingGuard", "lib/lpc/object.c", r"if \(\+\+count > CONFIG_INT \(__MAX_MAPPING_SIZE__\)\)" + W + r"\{.{0,400}?mapping_too_large \(\);", 1, None),
+    ("handlerNestedKeepsState", "src/error_context.c", r"in_mudlib_error_handler = 0;" + W + r"set_error_state \(handler_limit_state\);", 2, None),
+    ("handlerSavesState", "src/error_context.c", r"handler_limit_state = limit_state;" + W + r"in_mudlib_error_handler = 1;", 2, None),
     ("setLimitCast", "lib/efuns/unsorted.c", r"default:" + W + r"CONFIG_INT \(__MAX_EVAL_COST__\) = \(int\)sp->u.number;" + W + r"if \(CONFIG_INT \(__MAX_EVAL_COST__\) < 1\)", 1, None),
     ("aggregateAlloc", "src/interpret.c", r"unsigned short offset;.{0,60000}?case F_AGGREGATE:" + W + r"\{" + W + r"array_t \*v;" + W + r"LOAD_SHORT \(offset, pc\);" + W + r"offset \+= \(unsigned short\)num_varargs;" + W + r"num_varargs = 0;" + W + r"v = allocate_empty_array \(\(int\) offset\);", 1, None),
     ("callbackTickBlock", "src/interpret.c", r"svalue_t\* call_efun_callback \(function_to_call_t \* ftc, int n\) \{" + W + r"svalue_t \*v;" + W + r"(?:/\*.*?\*/)?" + W + r"if \(!--eval_cost\)" + W + r"\{" + W + r"set_error_state \(ES_MAX_EVAL_COST\);" + W + r"eval_cost = CONFIG_INT \(__MAX_EVAL_COST__\);" + W + r"error", 1, None),
@@ -522,7 +524,7 @@ def machine_case(cid, root, cost, depth, stack, hc=0, meta=None, idx=None, via="
     # (objects are loaded before the budget is lowered: create () runs under the budget, too)
     lines = ["lpc %s.c %s" % (name, src.encode().hex()), "load p %s" % name] + first + ["depth %d" % depth, "stack %d" % stack]
     if hc:
-        lines.append("mset set_handler_catches 1")
+        lines.append("mset set_handler_catches %d" % hc)
     lines += ["shape %s" % root.term(), "ev p main"]
     m = {"origin": "generated", "kind": "machine"}
     m.update(meta or {})
@@ -533,7 +535,7 @@ class C04(Prop):
     id = "C04"
     title = "Every evaluation is bounded by the configured limits"
     lean_modules = ["NV.C04.Props", "NV.C04.Top", "NV.C04.TopSizes", "NV.C04.Witness", "NV.C04.SpecTests"]
-    theorems = ["NV.C04.model_satisfies_spec", "NV.C04.szCmd_satisfies_spec", "NV.C04.szCmdC_satisfies_spec", "NV.C04.exec_call_ok_unwound", "NV.C04.limit_error_not_swallowed", "NV.C04.limit_error_reaches_next_frame",
+    theorems = ["NV.C04.model_satisfies_spec", "NV.C04.eval_completes_below_budget", "NV.C04.exec_NE", "NV.C04.szCmd_satisfies_spec", "NV.C04.szCmdC_satisfies_spec", "NV.C04.exec_call_ok_unwound", "NV.C04.limit_error_not_swallowed", "NV.C04.limit_error_reaches_next_frame",
                 "NV.C04.catch_reraises_limit_error", "NV.C04.eval_bounded", "NV.C04.eval_bounded_exact",
                 "NV.C04.eval_bounded_of_pos", "NV.C04.depth_bounded", "NV.C04.stack_checked_pushes_bounded",
                 "NV.C04.sizes_bounded", "NV.C04.replace_scan_in_bounds", "NV.C04.sprintf_bounded",
@@ -762,6 +764,13 @@ class C04(Prop):
         B.append(self.mk("b-hc-c1-spin", C(S), hc=1))
         B.append(self.mk("b-hc-c2-spin", C(C(S)), hc=1))
         B.append(self.mk("b-hc-c2-rec", C(C(R(0))), hc=1))
+        # repaired: a handler that completes a catch () and then raises an error of its own lost the limit bits
+        B.append(self.mk("b-hf-c1-spin", Q(C(S), W(50)), hc=2))
+        B.append(self.mk("b-hf-c2-rec", C(C(R(0))), hc=2))
+        B.append(self.mk("b-hf-spin", S, hc=2))
+        B.append(self.mk("b-hf-safe-spin-loop", Bk(4, A(S)), cost=2000, hc=2))
+        B.append(self.mk("b-hf-safe-catch-spin", Q(A(C(S)), W(10)), cost=2000, hc=2))
+        B.append(self.mk("b-hf-c-err", Q(C(E_), Q(A(E_), W(20))), hc=2))
         B.append(self.mk("b-cb-c-spin", Bk(3, C(C(S)))))
         B.append(self.mk("b-c-cb-spin", C(Bk(2, S, 1))))
         B.append(self.mk("b-c-call-c-spin", C(F(2, C(F(1, S))))))
@@ -903,7 +912,7 @@ class C04(Prop):
                 continue
             if root.has(("A",)) and st["inf"] is False and rng.chance(1, 2):
                 continue
-            hc = 1 if rng.chance(1, 5) else 0
+            hc = rng.choice([1, 1, 2]) if rng.chance(1, 4) else 0   # 2: the handler completes a catch and then fails itself
             via = rng.weighted([("cfgint", 6), ("reconf", 2), ("setlimit", 1)])
             if rng.chance(1, 12):       # a budget that the driver clamps to 1
                 cost = rng.choice([0, -1, -3000]) if via != "setlimit" else rng.choice([-2, -3000, 4294967296])
